@@ -335,13 +335,27 @@ func ruleBulkOps(cx *Ctx) {
 				}
 				// refresh only for stale hits
 				for _, e := range o.S.trace {
-					if e.Kind == "FieldStore" && strings.HasSuffix(e.Args[0], ".old") && strings.HasPrefix(e.Args[1], "res:GetNode#") {
+					if e.Kind == "LitStore" && strings.HasSuffix(e.Args[0], ".old") && strings.HasPrefix(e.Args[1], "res:GetNode#") {
 						fresh, fk := predOf(o, "Fresh("+e.Args[1]+","+nowOf(o)+")")
 						at.check(name+": reload candidates are stale", fk && !fresh, "only entries that are not fresh are handed to the bulk refresh", fmt.Sprintf("fresh known=%v value=%v", fk, fresh), o)
 					}
 				}
 				for _, e := range allEvents(o, "BulkRefreshKeys") {
 					at.check(name+": automatic refresh is non-manual", e.Args[len(e.Args)-1] == "false", "BulkGet's refresh returns no channel", e.String(), o)
+				}
+				// every way out of the call (result, load error, re-raised loader panic) has handed the stale hits over
+				stale := 0
+				for _, e := range o.S.trace {
+					if e.Kind == "LitStore" && strings.HasSuffix(e.Args[0], ".old") && strings.HasPrefix(e.Args[1], "res:GetNode#") {
+						stale++
+					}
+				}
+				if stale > 0 && !o.Cut {
+					kind := "return"
+					if o.Panic {
+						kind = "exit by panic"
+					}
+					at.check(name+": stale hits dispatched ("+kind+")", len(allEvents(o, "BulkRefreshKeys")) == 1, "when the lookup phase found stale hits, the bulk refresh is dispatched exactly once on every path out of BulkGet, also when loading the misses fails", fmt.Sprintf("%d stale hit(s), %d dispatch(es)", stale, len(allEvents(o, "BulkRefreshKeys"))), o)
 				}
 			}
 			if spec.kind == "bulkRefresh" && !o.Cut {
